@@ -58,7 +58,7 @@ ASSUMPTIONS = [
     "mpmath elementary functions at 50 digits are exact for the purpose of a 1e-13 comparison",
     "the documented formulas in the class docstrings define the transformations; the valid "
     "output range is the image of the documented input range",
-    "numpy pow/exp/log kernels are accurate to 32 ulp (K in oracles/normalizers.py)",
+    "numpy pow/exp/log kernels are accurate to 8 ulp (K in oracles/normalizers.py)",
     "scipy.stats.boxcox_normmax / yeojohnson_normmax(method mle) maximise the same profile likelihood",
     "np.meshgrid(indexing='ij') is the documented structured-grid layout",
 ]
@@ -465,7 +465,7 @@ def check_maps(case, rec):
             dict(tags, kind="nan_pattern", value=v),
         )
         err = abs(R._f(R.M.mpf(a) - e))
-        rec.discrepancy("closed_form_" + direction, err, t1)
+        rec.discrepancy("closed_form_" + direction + ("_limit_switch" if switch_range(spec) else ""), err, t1)
         require(
             err <= t1,
             f"{spec['cls']}.{f1.__name__}({v!r}) = {a!r}, closed form {ef!r}: error {err:.3g} > budget {t1:.3g}",
@@ -665,7 +665,9 @@ def check_derivative(case, rec):
         sg, lnu, mu, _u = ref._fwd_parts(x)
         de = R._f(ref.dT(x))
         # exact derivative; pow with exponent (mu-1): relative error eps |(mu-1) ln u|
-        trel = R.K * EPS * (1 + abs(R._f((mu - 1) * lnu)))
+        # (Manly: T' = exp(lmbda x), exponent lmbda x)
+        expo = mu * lnu if spec["cls"] == "Manly" else (mu - 1) * lnu
+        trel = R.K * EPS * (1 + abs(R._f(mu - 1)) + abs(R._f(expo)))
         err = abs(dl / de - 1) if de > 0 and math.isfinite(de) else math.inf
         rec.discrepancy("derivative_exact", err, trel)
         require(
@@ -741,7 +743,8 @@ def ll_budget(ref, data):
     jac = 0.0
     for x in data:
         _sg, lnu, mu, _u = ref._fwd_parts(x)
-        jac += 1 + abs(R._f((mu - 1) * lnu))
+        expo = mu * lnu if ref.cls == "Manly" else (mu - 1) * lnu
+        jac += 1 + abs(R._f(mu - 1)) + abs(R._f(expo))
     # var: |d s2| <= 2 sqrt(n s2) max|dT|  ->  n/2 d(log s2) <= n sqrt(n) max|dT| / sqrt(s2)
     if not 1e-280 < s2f < 1e280:
         return R._f(ll), R._f(kern), math.inf, s2f
@@ -826,6 +829,8 @@ def gen_fit(draw, tier="quick"):
     if cls == "BoxCoxShift":
         spec["shift"] = float(draw(st.sampled_from([0.0, 0.5, 2.0, -1.0, 10.0])))
     via = draw(st.sampled_from(["fit", "fit", "ctor", "krige", "tools"]))
+    if cls == "BoxCoxShift" and draw(st.booleans()):
+        via = "fit2"  # both parameters fitted (documented as hard): descent property only
     return {
         "norm": spec,
         "n": draw(st.integers(15, 60)),
@@ -928,6 +933,35 @@ def check_fit(case, rec):
         return
     shift = spec["shift"]
     trend = float(case.get("trend", 0.0))
+    if via == "fit2":
+        # two-parameter fit (scipy BFGS from the current parameters).  The class doc
+        # warns that the shift is hard to fit; the only sound claim is that the result
+        # is not worse than the starting point, provided it keeps all data valid.
+        norm = gs.normalizer.BoxCoxShift(lmbda=1.0, shift=shift)
+        xa = np.array(x)
+        ll_start = np_loglik(cls, 1.0, shift, xa)
+        res, _ = call(norm.fit, list(x), _tags=tags)
+        require(
+            isinstance(res, dict) and set(res) == {"lmbda", "shift"}
+            and res["lmbda"] == norm.lmbda and res["shift"] == norm.shift,
+            f"fit result {res} does not report the stored parameters",
+            dict(tags, kind="fit_result"),
+        )
+        lam, sh = float(norm.lmbda), float(norm.shift)
+        if not (math.isfinite(lam) and math.isfinite(sh)) or not np.all(xa + sh > 0):
+            rec.label("fit2:shift_invalidates_data")
+            rec.nontrivial(False)
+            return
+        ll_end = np_loglik(cls, lam, sh, xa)
+        require(
+            ll_end >= ll_start - 1e-9 * (1 + abs(ll_start)),
+            f"BoxCoxShift.fit (both parameters): log-likelihood {ll_end!r} at the result (lmbda={lam!r}, shift={sh!r}) "
+            f"is below the starting value {ll_start!r}",
+            dict(tags, kind="fit_worse_than_start"),
+        )
+        rec.label("fit2:moved" if (lam, sh) != (1.0, shift) else "fit2:stuck")
+        rec.nontrivial((lam, sh) != (1.0, shift))
+        return
     lam_o, ll_o, grid, gvals, nloc, at_edge = oracle_mle(cls, shift, x)
     if at_edge or nloc != 1:
         # likelihood not unimodal on [-6, 6]: a local optimiser has no defined target
@@ -1152,11 +1186,18 @@ def D_ref_array(ref, w, spec, case, rec):
         v = float(v)
         if math.isnan(v):
             continue
+        if switch_range(spec) and abs(v) > 1e6:
+            chk[i] = False
+            continue
         if math.isinf(v) or near_end(v, ref.out_range):
             chk[i] = False
             rec.exclude("tie_range_end")
             continue
         if not ref.out_valid(v):
+            if switch_range(spec):
+                # image end at -+1/mu, |mu| <= 1e-8, not represented (accepted limit switch)
+                chk[i] = False
+                continue
             if spec["cls"] in TWO_BRANCH:
                 if _known("N2_yj_modulus_output_range", case):
                     chk[i] = False
@@ -1310,6 +1351,9 @@ def check_pipe_tools(case, rec):
             rec.exclude("N5_struct_equal_axes")
             return
         tags["finding"] = "N5_struct_equal_axes"
+    if spec and yj_band(spec) and _known("N3_yj_switch_width", case):
+        rec.exclude("N3_yj_switch_width")
+        return
     ref = mk_ref(spec or IDENT)
     coords = coords_of(case["pos"], mesh, dim)
     sshape = np.shape(coords[0])
@@ -1381,6 +1425,10 @@ def gen_pipe_field(draw, tier="quick"):
     sp = spec or IDENT
     ref = mk_ref(sp)
     lo, hi = (R._f(b) for b in ref.out_range)
+    if switch_range(sp):
+        # image end at -+1/mu with |mu| <= 1e-8: out of reach of the data
+        lo = -math.inf if abs(lo) >= 1e7 else lo
+        hi = math.inf if abs(hi) >= 1e7 else hi
     # random parts are N(0, var): place the mean inside the image of the normalizer
     sd = draw(st.sampled_from([0.1, 0.3, 0.6]))
     if math.isfinite(lo) and math.isfinite(hi):
@@ -1407,9 +1455,13 @@ def gen_pipe_field(draw, tier="quick"):
     if base == 0.0 and draw(st.booleans()) and not math.isfinite(lo) and not math.isfinite(hi):
         mean = None
     trend = draw(fspecs(dim, vector))
+    as_class = bool(
+        spec and is_identity(spec) and spec["cls"] != "Manly" and spec["shift"] == 0.0 and draw(st.booleans())
+    )
     case = {
         "kind": kind, "dim": dim, "mesh": mesh, "vector": vector, "norm": spec,
-        "norm_as": draw(st.sampled_from(["instance", "instance", "class"])) if spec and is_identity(spec) else "instance",
+        # passing the class itself means default parameters (lmbda=1, shift=0)
+        "norm_as": "class" if as_class else "instance",
         "mean": mean, "trend": trend,
         "pos": draw(positions(dim, mesh, n_max=6)),
         "seed": draw(st.integers(0, 2**31 - 1)),
@@ -1468,6 +1520,9 @@ def check_pipe_field(case, rec):
     sp = spec or IDENT
     tags = spec_tags(sp, obj=kind, mesh=mesh, vector=vector, dim=dim)
     rec.label(kind, mesh, "vector" if vector else "scalar", sp["cls"] if spec else "None")
+    if yj_band(sp) and _known("N3_yj_switch_width", case):
+        rec.exclude("N3_yj_switch_width")
+        return
     ref = mk_ref(sp)
     coords = coords_of(case["pos"], mesh, dim)
     sshape = np.shape(coords[0])
@@ -1535,6 +1590,31 @@ def check_pipe_field(case, rec):
                 f"normalize(cond_val - trend) - mean = {want_c!r} (error {err:.3g} > {tolc:.3g})",
                 dict(tags, kind="krige_conditions"),
             )
+        # get_mean: documented as denormalize(estimated mean + field mean), trend neglected
+        if case["mean"] is None or case["mean"]["k"] == "const":
+            m0 = float(case["mean"]["v"]) if case["mean"] else 0.0
+            gm_raw, _ = call(k.get_mean, post_process=False, _tags=tags)
+            require(gm_raw is not None, "get_mean returns None for a constant mean", dict(tags, kind="get_mean"))
+            wv = np.array([float(gm_raw) + m0])
+            w0 = float(wv[0])
+            scalar_bad = math.isfinite(w0) and (
+                not ref.out_valid(w0) or near_end(w0, ref.out_range) or f2_region(sp, ref, w0)
+            )
+            gtags = dict(tags)
+            if scalar_bad and sp["cls"] not in TWO_BRANCH:
+                # denormalize of an out-of-range *scalar*: finding N1 (TypeError instead of NaN)
+                if _known("N1_scalar_out_of_range", case):
+                    rec.exclude("N1_scalar_out_of_range")
+                    rec.nontrivial(False)
+                    return
+                gtags["finding"] = "N1_scalar_out_of_range"
+            gm, _ = call(k.get_mean, _tags=gtags, _what="Krige.get_mean")
+            require(gm is not None, "get_mean returns None for a constant mean", dict(tags, kind="get_mean"))
+            gval, gtol, gchk = D_ref_array(ref, wv, sp, case, rec)
+            compare_masked(
+                np.array([float(gm)]), gval, gtol + 4 * EPS * np.abs(np.nan_to_num(gval)), gchk,
+                "Krige.get_mean() vs D(get_mean(post_process=False) + mean)", tags, rec, "get_mean",
+            )
     rec.nontrivial(bool(spec and not is_identity(spec) and (f_nonconst(case["mean"]) or f_nonconst(case["trend"])) and n_ok >= 2))
 
 
@@ -1546,12 +1626,12 @@ def _g(direction):
 
 
 SUBS = [
-    Sub("roundtrip", _g("fwd"), check_maps, quick=3000, thorough=60000, shards_quick=2, shards_thorough=4),
-    Sub("inverse", _g("inv"), check_maps, quick=3000, thorough=60000, shards_quick=2, shards_thorough=4),
-    Sub("monotone", gen_monotone, check_monotone, quick=1200, thorough=20000, shards_quick=1, shards_thorough=2),
-    Sub("derivative", gen_derivative, check_derivative, quick=1500, thorough=30000, shards_quick=1, shards_thorough=2),
-    Sub("loglik", gen_loglik, check_loglik, quick=800, thorough=15000, shards_quick=2, shards_thorough=4),
-    Sub("fit", gen_fit, check_fit, quick=240, thorough=4000, shards_quick=3, shards_thorough=6, shrink_quick=False),
-    Sub("pipe_tools", gen_pipe_tools, check_pipe_tools, quick=800, thorough=15000, shards_quick=2, shards_thorough=4),
-    Sub("pipe_field", gen_pipe_field, check_pipe_field, quick=600, thorough=10000, shards_quick=3, shards_thorough=6),
+    Sub("roundtrip", _g("fwd"), check_maps, quick=5000, thorough=60000, shards_quick=2, shards_thorough=4),
+    Sub("inverse", _g("inv"), check_maps, quick=5000, thorough=60000, shards_quick=2, shards_thorough=4),
+    Sub("monotone", gen_monotone, check_monotone, quick=2000, thorough=20000, shards_quick=1, shards_thorough=2),
+    Sub("derivative", gen_derivative, check_derivative, quick=2400, thorough=30000, shards_quick=1, shards_thorough=2),
+    Sub("loglik", gen_loglik, check_loglik, quick=1600, thorough=16000, shards_quick=2, shards_thorough=4),
+    Sub("fit", gen_fit, check_fit, quick=450, thorough=6000, shards_quick=3, shards_thorough=6, shrink_quick=False),
+    Sub("pipe_tools", gen_pipe_tools, check_pipe_tools, quick=1600, thorough=16000, shards_quick=2, shards_thorough=4),
+    Sub("pipe_field", gen_pipe_field, check_pipe_field, quick=1200, thorough=12000, shards_quick=3, shards_thorough=6),
 ]
